@@ -3,7 +3,7 @@
    (round trip), C17 (idempotence), C01 (totality) and C06 (output size).
    `is_run l f n` (Spec/CmSpec.v): a MAXIMAL run of exactly n >= 1 bytes f occurs in l. *)
 From Coq Require Import List NArith Bool Strings.String.
-From V Require Import Base.Bytes Base.Res Model.Ast Model.Cm Spec.CmSpec Spec.EscapeSpec Proofs.CmProofs.
+From V Require Import Base.Bytes Base.Res Model.Ast Model.Cm Spec.CmSpec Spec.EscapeSpec Proofs.CmProofs Proofs.CmTotal.
 Import ListNotations.
 Local Open Scope list_scope.
 
@@ -51,6 +51,55 @@ Print Assumptions CmLeaf_fence_safe.
 Theorem CmLeaf_has_run_spec : forall l f n, has_run l f n = true <-> is_run l f n.
 Proof. exact has_run_spec. Qed.
 Print Assumptions CmLeaf_has_run_spec.
+
+(* 6. totality, partial: on trees satisfying the shape clauses K1-K3 of Spec/CmSpec.v (items under
+      lists, non-empty code literals, cells under rows / header rows under tables) the model returns
+      Ok in RELEASE mode (usize arithmetic wraps), for every option set without
+      experimental_minimize_commonmark.  The debug-mode statement (K1-K4) is
+      Proofs/CmTotal.v cm_total_debug_full_statement: not proved, evaluated by the check. *)
+Theorem CmLeaf_cm_total_partial : forall o root,
+  o_experimental_minimize o = false ->
+  cm_shape [] None root = true ->
+  exists out, format_document o false root = CmOk out.
+Proof. exact cm_total_partial. Qed.
+Print Assumptions CmLeaf_cm_total_partial.
+
+(* every clause is needed (witness trees; the check replays them on the compiled formatter) *)
+Theorem CmLeaf_cm_total_refuted_without_K1 :
+  cm_shape [] None w_item_under_document = false /\
+  is_panic (format_document cm_opts0 false w_item_under_document) = true /\
+  is_panic (format_document cm_opts0 true w_item_under_document) = true /\
+  cm_shape [] None w_item_root = false /\
+  is_panic (format_document cm_opts0 false w_item_root) = true /\
+  is_panic (format_document cm_opts0 true w_item_root) = true.
+Proof. exact cm_total_refuted_without_K1. Qed.
+Print Assumptions CmLeaf_cm_total_refuted_without_K1.
+
+Theorem CmLeaf_cm_total_refuted_without_K2 :
+  cm_shape [] None w_empty_code = false /\
+  is_panic (format_document cm_opts0 false w_empty_code) = true /\
+  is_panic (format_document cm_opts0 true w_empty_code) = true.
+Proof. exact cm_total_refuted_without_K2. Qed.
+Print Assumptions CmLeaf_cm_total_refuted_without_K2.
+
+Theorem CmLeaf_cm_total_refuted_without_K3 :
+  cm_shape [] None w_cell_under_paragraph = false /\
+  is_panic (format_document cm_opts0 false w_cell_under_paragraph) = true /\
+  is_panic (format_document cm_opts0 true w_cell_under_paragraph) = true /\
+  cm_shape [] None w_header_cell_no_table = false /\
+  is_panic (format_document cm_opts0 false w_header_cell_no_table) = true /\
+  is_panic (format_document cm_opts0 true w_header_cell_no_table) = true.
+Proof. exact cm_total_refuted_without_K3. Qed.
+Print Assumptions CmLeaf_cm_total_refuted_without_K3.
+
+(* K1-K3 are not enough in debug builds: the counter of an ordered list starting at usize::MAX *)
+Theorem CmLeaf_cm_total_debug_refuted_without_K4 :
+  cm_shape [] None w_ol_overflow = true /\
+  cm_no_ol_overflow w_ol_overflow = false /\
+  is_cmok (format_document cm_opts0 false w_ol_overflow) = true /\
+  is_panic (format_document cm_opts0 true w_ol_overflow) = true.
+Proof. exact cm_total_debug_refuted_without_K4. Qed.
+Print Assumptions CmLeaf_cm_total_debug_refuted_without_K4.
 
 (* non-vacuity: runs 1 and 2 present gives 3; a literal with runs 1..4 needs 5 ticks *)
 Example CmLeaf_ex1 : shortest_unused_sequence [x60; x61; x60; x60] x60 = Ok 3%N.
